@@ -63,6 +63,37 @@ def run(cx: Cx):
     else:
         cx.ok('R-SHARED', 'all library state is allocated per instance in __init__', where=tl.where, function=tl.qualname)
 
+    # R-DISC: ids are positions in the name list, so the list only grows at its tail, the counter only counts up and an entry, once
+    # made, stays: the constructor (at construction) and add_tag are the only writers of a library's state - an operation that
+    # removes, renames or resets (a list.remove shifts every later name under the id of its neighbour) breaks "by name and by id are
+    # inverses" for all tags added before
+    allowed = {init.qualname, addt.qualname}       # WHAT add_tag writes is clause 2's business
+    n_w = 0
+    bad_w = None
+    for loc_f in ('_tag_names', '_tag_counter', '__dict__'):
+        for s_ in cx.effects.sites_of((TL, loc_f)):
+            n_w += 1
+            owners = s_.owners or {s_.owner_q}
+            if not all(o in allowed for o in owners):
+                bad_w = bad_w or s_
+    for k_, calls_ in cx.effects.calls.items():
+        for c_ in calls_:
+            if any(t.qualname == init.qualname for t in c_.data.get('targets', [])) and c_.data.get('via') not in ('ctor', 'super'):
+                kf_ = prog.functions.get(k_.split('#')[0])
+                cx.violation('R-DISC', k_, 'library-state-written-by-constructor-and-add_tag-only',
+                             f"{k_} calls TagLibrary.__init__ on an existing library: counter and name list start over while the entries "
+                             f"made so far stay in the instance dictionary - old names still resolve, cannot be added again, and new tags "
+                             f"reuse their ids", where=cx.where(kf_, c_.line) if kf_ else '')
+                bad_w = bad_w or True
+    if bad_w is not None and bad_w is not True:
+        cx.violation('R-DISC', bad_w.fn.qualname, 'library-state-written-by-constructor-and-add_tag-only',
+                     f"{bad_w.describe()}: a library's state is written by its constructor and by add_tag (tail append, counter + 1, one "
+                     f"new entry) only; ids are positions in the name list, so removing, renaming or resetting breaks the tags that "
+                     f"exist already", where=bad_w.where)
+    elif bad_w is None:
+        cx.ok('R-DISC', f"library state is written by __init__ and add_tag only ({n_w} write sites)", where=tl.where, function=tl.qualname)
+    cx.floor('tag library write sites', n_w, 5)
+
     # ------------------------------------------------------------ clause 2: add_tag
     check_atomic(cx, addt.qualname, ['DuplicateTagError'])
     n = 0
